@@ -103,6 +103,28 @@ CLAIMED["C10"] = ("proof", "GENERATED from /repo on every run: the cell rule of 
     "whole-dataset and score agreement between a text file and a NetCDF file of the same abstract dataset (optional variables, every "
     "missing encoding, custom fill values), text2nc round trips and misleading file names are checked on the implementation each run.",
     "7 C10", "Coq proof over translated source + format-agreement correspondence check (partial)")
+CLAIMED["C20"] = ("proof", "Hand-written executable model (coq/Model/Scripts.v, exact rationals) of the per-series / per-case transformations of "
+    "scripts/accumulate.py (trailing window, cumulative sum, -i), ens2prob.py (cdf, zero-order-hold quantiles, PIT) and expandverif.py "
+    "(valid-time matching). Theorems, for all series / ensembles / time lists: position i of the windowed output is missing for i < w-1 and "
+    "otherwise the sum of exactly the w values i-w+1..i, present iff all of them are (or always with -i); the cdf lies in [0,1], never "
+    "decreases with the threshold and is missing iff no member is present; every quantile is a member (hence within the ensemble range), "
+    "never decreases with the level, level 0 is the minimum; PIT is the fraction of members below the observation, in [0,1], missing where "
+    "the observation is missing; an observation is placed exactly where the valid time matches (first matching source case) and nowhere "
+    "else. PARTIAL: NetCDF/scipy I/O and float32 storage are outside the model. The tie runs the real scripts on generated text and NetCDF "
+    "files every run, reads every written variable back with netCDF4 and compares with the model (vm_compute) and an independent oracle; "
+    "times, lead times, location metadata and untouched fields must be preserved.",
+    "7 C20", "Coq proof over a hand-written model + script-level correspondence check (partial)")
+CLAIMED["C19"] = ("proof", "PARTIAL. GENERATED from /repo on every run (Gen/Gen_caps.v): the capability attributes of every metric and output class "
+    "(resolved along inheritance), the -m name -> Output class chain, the three statements of driver.run that drop an unsupported -x and "
+    "the chains choosing default thresholds / quantiles. Theorems: for ANY capability flags the gate only ever drops the axis, an axis that "
+    "survives is supported by the output, -x threshold / obs / fcst reach only code whose output AND metric declare support, a supported "
+    "axis is never dropped; for the current tables (vm_compute, finite): every declared require_threshold_type is one the driver "
+    "recognises, the 'Internal error' exit is unreachable, every metric needing thresholds/quantiles gets them, every diagram name has a "
+    "class. Whether numpy/matplotlib raise inside a permitted combination is runtime behaviour no Coq model can exhibit: the check "
+    "ENUMERATES verif.driver.run over names x 20 -x values x 8 output types x 7 dataset shapes (+ -r/-q/-b/-agg variants) -- a stratified "
+    "sample in quick, the full product in thorough or whenever a proof/tie is broken -- and reports every unhandled exception with its argv; "
+    "the model's keep/drop decision is compared with the driver's warnings for every (name, axis) pair.",
+    "7 C19", "Coq proof over translated gating logic and capability tables + exhaustive enumeration of the real driver (partial)")
 PENDING = {}
 
 def main():
